@@ -528,9 +528,9 @@ def oracle(ctx, jinja2, loop):
                            f"a coroutine was created and never awaited ({w[2]})", "coroutine never awaited: " + (w[2][0].split("'")[1] if "'" in w[2][0] else "?"))
             if out != expect:
                 cons = culprit_consumer(ts["main.html"])
-                sig = "sum with str start" if ("sum(start=''" in ts["main.html"] and expect == "exc:TypeError") else \
+                sig = "StopIteration from a coroutine callable" if ("stop()" in ts["main.html"] and wrapped and out == "exc:RuntimeError") else \
                     "len() of the loop object in async mode" if ("loop|length" in ts["main.html"] and out == "exc:TypeError") else \
-                    "StopIteration from a coroutine callable" if ("stop()" in ts["main.html"] and wrapped and out == "exc:RuntimeError") else \
+                    "sum with str start" if ("sum(start=''" in ts["main.html"] and expect == "exc:TypeError") else \
                     f"async generator fed to {cons}" if (cons and out.startswith("exc:")) else \
                     f"async differs: {cname} {entry}{' wrapped data' if wrapped else ''}"
                 ctx.reject({"templates": ts, "env": cname, "undefined": uname, "autoescape": AUTOESCAPE[0], "entry": entry, "mode": mode, "wrapped": wrapped, "expected": expect[:300],
